@@ -55,6 +55,9 @@ CLAIMED = {
  "C17": ("corr-sched", "Lean 4 invariant (progress <= ceil(clock / f) in every reachable state of the clock-extended transition system) + decision logic of rt_check / set_event + correspondence on a virtual clock + monitor",
          "Theorems on an integer-tick clock: progress_le_cap / not_early (a step for t begins only at clock > f*(t-1), any interleaving and tick pattern, grouped simulators included); set_event: error outside rt mode, ignored at/after until, scheduled before; rt_strict changes only warning vs RuntimeError at the same condition. The clause 'instant simulators are never reported too slow' is FALSE for connected simulators (finding C17-instant-too-slow; negation proved on a witness run in Findings.lean). Correspondence: the real rt code path on a virtual clock owned by the event loop (timers, polling timeouts, perf_counter patched).",
          "Float rounding of perf_counter arithmetic and real timers are not modelled (integer ticks: rt_factor*time_resolution whole, clock takes timer-deadline values only). Known finding C17-instant-too-slow (D13). Trusted: Lean kernel, correspondence harness incl. the virtual-clock loop."),
+ "C14": ("corr-fault", "Lean 4 case analysis of the World.run / shutdown control flow + fault enumeration on the real code (every request index x fault kind x local/remote subprocess)",
+         "Theorems (control flow only): however the run phase ends, if every stop() returns then every simulator is stopped exactly once in order, the loop is closed, a second shutdown() is a no-op, and KeyboardInterrupt / RemoteException are swallowed while everything else is re-raised; the hypothesis on stop() is shown to be necessary. PARTIAL by nature: OS processes, sockets, the stop timeout, promptness and pending asyncio tasks cannot be exhibited by the model; they are decided by the fault enumeration on the real code: chains of 2-3 simulators, every request index, exception in handler / process exit, in-process and real subprocesses, observing outcome, elapsed time, finalize counts, surviving processes, loop state, pending tasks.",
+         "Level 'proof' applies to the modelled control flow; the runtime clauses are fault_enumeration on the implementation. Trusted: Lean kernel, the enumeration harness, mosaik_api_v3."),
 }
 
 NOT_YET = {
@@ -83,6 +86,7 @@ m = {
  "engines": [
   {"name": "lean-proofs", "path": "lean/MosaikProofs", "serves_properties": sorted(CLAIMED), "kind_free_text": "Lean 4 theorems about the hand-written model lean/MosaikModel; audited with #print axioms on every run"},
   {"name": "corr-pure", "path": "harness/suites_pure.py", "serves_properties": [p for p in sorted(CLAIMED) if CLAIMED[p][0] == "corr-pure"], "kind_free_text": "correspondence check: real functions of /repo vs. the compiled Lean model on the same inputs (line protocol)"},
+  {"name": "corr-fault", "path": "harness/fault_enum.py", "serves_properties": [p for p in sorted(CLAIMED) if CLAIMED[p][0] == "corr-fault"], "kind_free_text": "fault enumeration on the real code with in-process and subprocess simulators, compared with the Lean model of World.run/shutdown"},
   {"name": "corr-sched", "path": "harness/sched_corr.py", "serves_properties": [p for p in sorted(CLAIMED) if CLAIMED[p][0] == "corr-sched"], "kind_free_text": "correspondence check: real scheduler under a controlled event loop with scripted simulators vs. the Lean transition system"},
  ],
  "checks": [
